@@ -155,6 +155,9 @@ func knownErrorClass(sh Shape, msg string) string {
 		return "percent-in-name-unescaped-twice"
 	case sh.AbsRootRef && strings.Contains(msg, `can't find value for "c07/root.json#`):
 		return "absolute-path-ref-to-root-taken-for-pointer"
+	case sh.SameNameTargets && strings.Contains(msg, "name conflict"):
+		// Go type names of referenced components come from the last pointer token only
+		return "same-named-components-in-two-documents-collide"
 	case wrapConflictRe.MatchString(msg):
 		// wrapper named after the content type: two responses with the same
 		// top-level component schema (or the same generic type) collide
@@ -162,6 +165,8 @@ func knownErrorClass(sh Shape, msg string) string {
 	}
 	return ""
 }
+
+var requiredRecursionRe = regexp.MustCompile(`infinite recursion: \S+ is required`)
 
 var defaultRe = regexp.MustCompile(` ?default\{[^}]*\}`)
 
@@ -277,7 +282,12 @@ func checkTransparency(c Case) Result {
 			switch k := knownErrorClass(sh, fmt.Sprint(ga.err, " ", gb.err)); {
 			case k != "":
 				cl = k
-			case sh.PathItemShar && (ga.err == nil) != (gb.err == nil) && strings.Contains(fmt.Sprint(ga.err, gb.err), "conflict"):
+			case sh.Cyclic > 0 && (ga.err == nil) != (gb.err == nil) && requiredRecursionRe.MatchString(fmt.Sprint(ga.err, gb.err)):
+				// struct recursion is checked in type-name order: a required member
+				// whose type reaches a cycle that is not broken yet is reported;
+				// inlining renames the types and so changes the order
+				cl = "schema-cycle-required-member-checked-before-optional"
+			case sh.PathItemShar && (strings.Contains(fmt.Sprint(ga.err, gb.err), "conflict") || strings.Contains(fmt.Sprint(ga.err, gb.err), "duplicate method")):
 				// two operations with one path: type names / routes collide. Either
 				// form can be the one that hits the cache (the key of a reference
 				// depends on how it is spelled)
